@@ -858,6 +858,7 @@ def to_onnx(
         _bind_jaxpr_inputs(ctx, jpr, inputs_as_nchw=validated_inputs_as_nchw)
 
         _lower_jaxpr_equations(ctx, jpr)
+        ctx.pack_unconsumed_complex_inputs()
         _bind_jaxpr_outputs(
             ctx,
             jpr,
